@@ -248,6 +248,10 @@ func (st *SimStream) Read(p []byte) (int, error) {
 			err := st.inErr
 			ep := st.Epoch
 			cb := st.OnReadErr
+			if te, ok := err.(thrift.TTransportException); ok && te.TypeId() == thrift.TIMED_OUT {
+				// a read timeout is reported once per read: the connection itself is still there (and silent)
+				st.inErr, st.ended = nil, false
+			}
 			st.mu.Unlock()
 			if cb != nil {
 				cb(ep, err)
